@@ -39,6 +39,7 @@ let parse_bops n lines =
        | _ -> failwith "bad batch op") ops, rest)
 
 let run (id : string) (hdr : string list) (lines : string list list) (out : string -> unit) =
+  if kv_of hdr "mode" "seq" = "sched" then () else
   let c = { c_memsize = n_of_string (kv_of hdr "memsize" "4096"); c_maxmem = n_of_string (kv_of hdr "maxmem" "1000") } in
   let s = ref (init c) in
   let pr x = out (id ^ " " ^ x) in
